@@ -3,7 +3,7 @@
    extracted inductives (no Extract Constant, no native integers). *)
 Require Extraction.
 Require Import ExtrOcamlBasic.
-From CV Require Import Base.Geom Engine.Magic Engine.Encoding Chess.Rules Chess.Fen Engine.PositionRep Engine.RepAbs Chess.History.
+From CV Require Import Base.Geom Engine.Magic Engine.Encoding Chess.Rules Chess.Fen Engine.PositionRep Engine.RepAbs Chess.History Engine.Classify Chess.San.
 
 Extraction "model.ml"
   (* geometry specs *)
@@ -21,4 +21,6 @@ Extraction "model.ml"
   rep_of_position rep_abs enc rep_parse_uci do_move undo_move do_null_move undo_null_move get_key
   is_repeated threefold rule50 enough_material scratch_key
   (* history spec *)
+  move_is_quiet_alg move_is_capture_alg move_gives_check_alg captures_spec quiet_spec gives_check_spec
+  san_print san_parse regex_match
   same_position occurred_before occurred_three_times fifty_moves insufficient_material.
